@@ -44,7 +44,9 @@ theorem top_step {c : Ctx} (h : TopOpen T) (hc : c.row = 0) (it : Item) :
               · simp
               · exact ih
             · split
-              · split <;> simp
+              · split
+                · simp
+                · split <;> simp
               · simp
           · exact ih
 
@@ -66,15 +68,15 @@ theorem fill_top_rest (ic : Bool) (h : TopOpen T) (f : Nat) : ∀ (c : Ctx) (ls 
           · simp at hf
           · rename_i hn
             simp at hf
-            exact ih _ _ _ _ hc (hf.2 ▸ hn)
+            exact ih _ _ _ _ (by simpa [nextCtx] using hc) (hf.2 ▸ hn)
         · rename_i hs; exact absurd hs h1
         · rename_i hs; exact absurd hs h2
-        · exact ih _ _ _ _ (by simpa using hc) hf
+        · exact ih _ _ _ _ (by simpa [nextCtx] using hc) hf
         · split at hf
           · simp at hf
           · rename_i hn
             simp at hf
-            exact ih _ _ _ _ hc (hf.2 ▸ hn)
+            exact ih _ _ _ _ (by simpa [nextCtx] using hc) (hf.2 ▸ hn)
         · split at hf
           · simp at hf
           · split at hf
@@ -112,7 +114,7 @@ theorem pr_stmt_mem : ∀ (t : Forest) (c : Ctx) (it : Item) (k : Nat),
     simp only [pr, List.mem_cons, PLine.stmt.injEq] at h
     rcases h with h | h
     · simp [flat, h.1]
-    · simp [flat, ih c it k h]
+    · simp [flat, ih _ it k h]
   | endl it0 nx ih =>
     intro c it k h
     simp only [pr, List.mem_cons] at h
